@@ -217,7 +217,18 @@ def f_union_mixed_types(prog, idxs, ctx):
     return False
 
 
+def f_clip_on_non_numeric(prog, idxs, ctx):
+    for i in idxs:
+        for n in walk(prog["steps"][i]):
+            if n.get("k") == "fn" and n["op"] == "clip":
+                for b in n["a"][1:]:
+                    if b.get("k") == "lit" and (isinstance(b["v"], str | bool)) and b.get("ty") not in ("date", "datetime"):
+                        return True
+    return False
+
+
 FEATURES = {
+    "clip_on_non_numeric": f_clip_on_non_numeric,
     "union_mixed_types": f_union_mixed_types,
     "agg_or_window_over_constant": f_agg_or_window_over_constant,
     "ungrouped_summarize_aggregates_dropped": f_ungrouped_summarize_aggregates_dropped,
